@@ -335,27 +335,8 @@ theorem json_roundtrip_in_context {T : Tables} (hT : T.WF) {R : Rfc3339} (hR : R
 
 /-! ### every annotated tree — no condition tying the annotations to the reader -/
 
-mutual
-  /-- the hypotheses of C04 on an annotated tree, and nothing else: every tag a KMIP tag, every value in
-      the range of its Go type, every date within years 1..9999 (UTC seconds `minEpoch … maxEpoch`).
-      No condition on which enumeration / mask type a node is written with. -/
-  def inScope : XItem → Bool
-    | .struct t cs => tagOk t && inScopeList cs
-    | .int t v => tagOk t && int32Ok v
-    | .mask t _ v => tagOk t && int32Ok v
-    | .long t v => tagOk t && int64Ok v
-    | .big t _ => tagOk t
-    | .enum t _ v => tagOk t && decide (v < 4294967296)
-    | .bool t _ => tagOk t
-    | .text t _ => tagOk t
-    | .bytes t _ => tagOk t
-    | .date t v => tagOk t && decide (minEpoch ≤ v) && decide (v ≤ maxEpoch)
-    | .interval t v => tagOk t && decide (v < 4294967296)
-  def inScopeList : List XItem → Bool
-    | [] => true
-    | x :: xs => inScope x && inScopeList xs
-end
-
+/-- `Lex.inScope` (Model/Lex.lean, so that the driver can evaluate it on the harness's inputs: line
+    `lex.scope`): KMIP tags, Go value ranges, dates in years 1..9999 — no condition on annotations. -/
 def InScope (t : XItem) : Prop := inScope t = true
 
 mutual
